@@ -256,31 +256,83 @@ theorem fold_sle {n : Nat} {P : Str → Str → Prop} (impls : List (Str × Str)
 /-! ### loader states -/
 
 /-- two loader states that differ in their schemas only, and those are related by `Q` -/
+def gtClass : Option TypeEntry → Option (Option SType)
+  | none => none
+  | some (.concrete t) => some (some t)
+  | some (.abstract_ _ _) => some none
+
+/-- two schemas that answer "concrete (which)? abstract? unknown?" alike for every type name -/
+def GtEq (x y : Schema) : Prop := ∀ ty, gtClass (y.gettype ty) = gtClass (x.gettype ty)
+
+/-- the schemas the override bags are sorted by (`LS.bagSchema`: none without overrides) on the two sides -/
+def BagRel (o o' : Option Schema) : Prop := (o = none ∧ o' = none) ∨ ∃ x y, o = some x ∧ o' = some y ∧ GtEq x y
+
 def LSRel (Q : Schema → Schema → Prop) (a b : LS) : Prop :=
   b.privateSchema = a.privateSchema ∧ b.handlers = a.handlers ∧ b.stack = a.stack ∧ b.pkgs = a.pkgs ∧ b.conv = a.conv ∧
-    Q a.schema b.schema
+    BagRel a.bagSchema b.bagSchema ∧ Q a.schema b.schema
 
-theorem LSRel.eq {Q : Schema → Schema → Prop} {a b : LS} (h : LSRel Q a b) : b = { a with schema := b.schema } := by
+theorem LSRel.eq {Q : Schema → Schema → Prop} {a b : LS} (h : LSRel Q a b) :
+    b = { a with schema := b.schema, bagSchema := b.bagSchema } := by
   obtain ⟨h1, h2, h3, h4, h5, _⟩ := h
   cases a; cases b
   simp only at h1 h2 h3 h4 h5
   subst h1 h2 h3 h4 h5
   rfl
 
+theorem lsStart_bagSchema (st st' : LS) (ty : Str) (nm : Option Str) (h : lsStart st ty nm = .ok st') : st'.bagSchema = st.bagSchema := by
+  unfold lsStart at h
+  split at h
+  · cases h
+  · split at h
+    · cases h
+    · cases h
+    · simp only [bind, Except.bind, pure, Except.pure] at h
+      split at h
+      · cases h
+      · split at h
+        · cases h
+        · split at h
+          · cases h
+          · split at h
+            · cases h; rfl
+            · split at h
+              · cases h
+              · cases h; rfl
+
+theorem lsStop_bagSchema (st st' : LS) (ty : Str) (nm : Option Str) (h : lsStop st ty nm = .ok st') : st'.bagSchema = st.bagSchema := by
+  unfold lsStop at h
+  split at h
+  · simp only [bind, Except.bind, pure, Except.pure] at h
+    split at h
+    · cases h
+    · split at h
+      · cases h
+      · cases h; rfl
+  · cases h
+
+theorem lsValue_bagSchema (st st' : LS) (k v : Str) (p : Pos) (h : lsValue st k v p = .ok st') : st'.bagSchema = st.bagSchema := by
+  unfold lsValue at h
+  split at h
+  · cases ha : addValue st.conv _ k v p with
+    | error e => rw [ha] at h; cases h
+    | ok m => rw [ha] at h; cases h; rfl
+  · cases h
+
+
 /-- `%import` on both sides -/
 theorem lsImport_sle {n : Nat} {P : Str → Str → Prop} (a b : LS) (pkg : Str) (h : LSRel (SLe n P) a b) :
     ExRel (LSRel (SLe n P)) (lsImport a pkg) (lsImport b pkg) := by
-  obtain ⟨h1, h2, h3, h4, h5, hQ⟩ := h
+  obtain ⟨h1, h2, h3, h4, h5, hB, hQ⟩ := h
   have hpb : b.pkgs pkg = a.pkgs pkg := by rw [h4]
   cases hp : a.pkgs pkg with
   | component url types impls =>
     have hp' : b.pkgs pkg = .component url types impls := by rw [h4, hp]
     rw [lsImport_component a pkg url types impls hp, lsImport_component b pkg url types impls hp', hQ.components]
     split
-    · exact ExRel.ok ⟨rfl, h2, h3, h4, h5, hQ⟩
+    · exact ExRel.ok ⟨rfl, h2, h3, h4, h5, hB, hQ⟩
     · have := hQ.withComponents [url]
       rw [hQ.components] at this
-      exact (fold_sle impls types this).map (fun sa sb hab => ⟨rfl, h2, h3, h4, h5, hab⟩)
+      exact (fold_sle impls types this).map (fun sa sb hab => ⟨rfl, h2, h3, h4, h5, hB, hab⟩)
   | notImportable => rw [hp] at hpb; unfold lsImport; rw [hp, hpb]; rfl
   | notPackage => rw [hp] at hpb; unfold lsImport; rw [hp, hpb]; rfl
   | noComponent => rw [hp] at hpb; unfold lsImport; rw [hp, hpb]; rfl
@@ -329,12 +381,6 @@ theorem header_simE {n : Nat} {P : Str → Str → Prop} (fuel : Nat) (env : Env
 
 /-- no extra names -/
 abbrev TabEq (n : Nat) : Schema → Schema → Prop := SLe n (fun _ _ => False)
-
-/-- what a loader operation can see of a type name -/
-def gtClass : Option TypeEntry → Option (Option SType)
-  | none => none
-  | some (.concrete t) => some (some t)
-  | some (.abstract_ _ _) => some none
 
 theorem TabEq.find {n : Nat} {S S' : Schema} (h : TabEq n S S') (x : Str) :
     OptRel (fun e e' => match e, e' with
@@ -463,6 +509,39 @@ theorem getsectioninfo_tabEq {n : Nat} {S S' : Schema} (h : TabEq n S S') : gets
   exact go_congr S' S h.isAbstract h.isSubtype ty nm _
 
 /-- a match on `gettype` that only asks "concrete (which)? abstract? unknown?" -/
+theorem gtEq_cases {S S' : Schema} (h : GtEq S S') (ty : Str) :
+    (S.gettype ty = none ∧ S'.gettype ty = none) ∨
+    (∃ t, S.gettype ty = some (.concrete t) ∧ S'.gettype ty = some (.concrete t)) ∨
+    (∃ a subs a' subs', S.gettype ty = some (.abstract_ a subs) ∧ S'.gettype ty = some (.abstract_ a' subs')) := by
+  have hc := h ty
+  cases h1 : S.gettype ty with
+  | none =>
+    cases h2 : S'.gettype ty with
+    | none => exact .inl ⟨rfl, rfl⟩
+    | some e' => rw [h1, h2] at hc; cases e' <;> cases hc
+  | some e =>
+    cases h2 : S'.gettype ty with
+    | none => rw [h1, h2] at hc; cases e <;> cases hc
+    | some e' =>
+      rw [h1, h2] at hc
+      cases e with
+      | concrete t =>
+        cases e' with
+        | concrete t' => simp only [gtClass, Option.some.injEq] at hc; subst hc; exact .inr (.inl ⟨_, rfl, rfl⟩)
+        | abstract_ n' subs' => cases hc
+      | abstract_ n subs =>
+        cases e' with
+        | concrete t' => cases hc
+        | abstract_ n' subs' => exact .inr (.inr ⟨_, _, _, _, rfl, rfl⟩)
+
+theorem TabEq.gtEq {n : Nat} {S S' : Schema} (h : TabEq n S S') : GtEq S S' := fun ty => h.gtClass ty
+
+theorem bagSectionInfo_gtEq {S S' : Schema} (h : GtEq S S') (conv : Conv) :
+    bagSectionInfo conv S' = bagSectionInfo conv S := by
+  funext b ty name
+  unfold bagSectionInfo
+  rcases gtEq_cases h ty with ⟨h1, h2⟩ | ⟨t, h1, h2⟩ | ⟨a, subs, a', subs', h1, h2⟩ <;> rw [h1, h2]
+
 theorem gtClass_cases {n : Nat} {S S' : Schema} (h : TabEq n S S') (ty : Str) :
     (S.gettype ty = none ∧ S'.gettype ty = none) ∨
     (∃ t, S.gettype ty = some (.concrete t) ∧ S'.gettype ty = some (.concrete t)) ∨
@@ -534,11 +613,16 @@ theorem addSection_tabEq {n : Nat} {S S' : Schema} (h : TabEq n S S') : addSecti
   unfold addSection
   rw [getsectioninfo_tabEq h]
 
-/-- the same loader state on another schema -/
-def LS.onSchema (S' : Schema) (a : LS) : LS := { a with schema := S' }
+/-- the same loader state on another schema (and another schema for the override bags) -/
+def LS.onSchema (S' : Schema) (B' : Option Schema) (a : LS) : LS := { a with schema := S', bagSchema := B' }
 
-theorem lsStart_onSchema {n : Nat} (a : LS) (S' : Schema) (h : TabEq n a.schema S') (ty : Str) (nm : Option Str) :
-    lsStart (a.onSchema S') ty nm = (lsStart a ty nm).map (LS.onSchema S') := by
+theorem lsStart_onSchema {n : Nat} (a : LS) (S' : Schema) (B' : Option Schema) (h : TabEq n a.schema S')
+    (hB : BagRel a.bagSchema B') (ty : Str) (nm : Option Str) :
+    lsStart (a.onSchema S' B') ty nm = (lsStart a ty nm).map (LS.onSchema S' B') := by
+  have hbs : bagSectionInfo a.conv (B'.getD S') = bagSectionInfo a.conv (a.bagSchema.getD a.schema) := by
+    rcases hB with ⟨h1, h2⟩ | ⟨x, y, h1, h2, hg⟩
+    · rw [h1, h2]; exact bagSectionInfo_gtEq h.gtEq a.conv
+    · rw [h1, h2]; exact bagSectionInfo_gtEq hg a.conv
   unfold lsStart LS.onSchema
   simp only
   cases a.stack with
@@ -547,7 +631,7 @@ theorem lsStart_onSchema {n : Nat} (a : LS) (S' : Schema) (h : TabEq n a.schema 
     simp only
     rcases gtClass_cases h ty with ⟨h1, h2⟩ | ⟨t, h1, h2⟩ | ⟨x, subs, x', subs', h1, h2⟩ <;> rw [h1, h2]
     · rfl
-    · simp only [getsectioninfo_tabEq h, bagSectionInfo_tabEq h]
+    · simp only [getsectioninfo_tabEq h, hbs]
       cases getsectioninfo a.schema parent.ty (t.name.getD []) nm with
       | error e => rfl
       | ok ci =>
@@ -560,11 +644,11 @@ theorem lsStart_onSchema {n : Nat} (a : LS) (S' : Schema) (h : TabEq n a.schema 
             | none => rfl
             | some b =>
               simp only
-              cases bagSectionInfo a.conv a.schema b (t.name.getD []) nm <;> rfl
+              cases bagSectionInfo a.conv (a.bagSchema.getD a.schema) b (t.name.getD []) nm <;> rfl
     · rfl
 
-theorem lsStop_onSchema {n : Nat} (a : LS) (S' : Schema) (h : TabEq n a.schema S') (ty : Str) (nm : Option Str) :
-    lsStop (a.onSchema S') ty nm = (lsStop a ty nm).map (LS.onSchema S') := by
+theorem lsStop_onSchema {n : Nat} (a : LS) (S' : Schema) (B' : Option Schema) (h : TabEq n a.schema S') (ty : Str)
+    (nm : Option Str) : lsStop (a.onSchema S' B') ty nm = (lsStop a ty nm).map (LS.onSchema S' B') := by
   unfold lsStop LS.onSchema
   simp only [finishMatcher_tabEq h, addSection_tabEq h]
   cases a.stack with
@@ -581,8 +665,8 @@ theorem lsStop_onSchema {n : Nat} (a : LS) (S' : Schema) (h : TabEq n a.schema S
         simp only [bind, Except.bind, pure, Except.pure, Except.map]
         cases addSection a.schema parent ty nm v <;> rfl
 
-theorem lsValue_onSchema (a : LS) (S' : Schema) (k v : Str) (p : Pos) :
-    lsValue (a.onSchema S') k v p = (lsValue a k v p).map (LS.onSchema S') := by
+theorem lsValue_onSchema (a : LS) (S' : Schema) (B' : Option Schema) (k v : Str) (p : Pos) :
+    lsValue (a.onSchema S' B') k v p = (lsValue a k v p).map (LS.onSchema S' B') := by
   unfold lsValue LS.onSchema
   simp only
   cases a.stack with
@@ -591,32 +675,36 @@ theorem lsValue_onSchema (a : LS) (S' : Schema) (k v : Str) (p : Pos) :
     simp only
     cases addValue a.conv cur k v p <;> rfl
 
-theorem LSRel.onSchema {n : Nat} {r : LS} {S S' : Schema} (hs : r.schema = S) (h : TabEq n S S') :
-    LSRel (TabEq n) r (r.onSchema S') := ⟨rfl, rfl, rfl, rfl, rfl, by rw [hs]; exact h⟩
+theorem LSRel.onSchema {n : Nat} {r : LS} {S S' : Schema} {B B' : Option Schema} (hs : r.schema = S) (hb : r.bagSchema = B)
+    (h : TabEq n S S') (hB : BagRel B B') : LSRel (TabEq n) r (r.onSchema S' B') :=
+  ⟨rfl, rfl, rfl, rfl, rfl, by rw [hb]; exact hB, by rw [hs]; exact h⟩
 
 /-- **every loader operation behaves the same on two schemas that differ in the order of implementer tables at most** -/
 theorem opsSimE_tabEq (n : Nat) : OpsSimE loaderCtx (LSRel (TabEq n)) where
   start := by
     intro a b ty nm h
-    have hb : b = a.onSchema b.schema := h.eq
+    have hb : b = a.onSchema b.schema b.bagSchema := h.eq
     rw [hb]
-    show ExRel _ (lsStart a ty nm) (lsStart (a.onSchema b.schema) ty nm)
-    rw [lsStart_onSchema a b.schema h.2.2.2.2.2 ty nm]
-    exact ExRel.map_right _ _ (fun r hr => LSRel.onSchema (lsStart_schema a r ty nm hr) h.2.2.2.2.2)
+    show ExRel _ (lsStart a ty nm) (lsStart (a.onSchema b.schema b.bagSchema) ty nm)
+    rw [lsStart_onSchema a b.schema b.bagSchema h.2.2.2.2.2.2 h.2.2.2.2.2.1 ty nm]
+    exact ExRel.map_right _ _ (fun r hr => LSRel.onSchema (lsStart_schema a r ty nm hr) (lsStart_bagSchema a r ty nm hr)
+      h.2.2.2.2.2.2 h.2.2.2.2.2.1)
   stop := by
     intro a b ty nm h
-    have hb : b = a.onSchema b.schema := h.eq
+    have hb : b = a.onSchema b.schema b.bagSchema := h.eq
     rw [hb]
-    show ExRel _ (lsStop a ty nm) (lsStop (a.onSchema b.schema) ty nm)
-    rw [lsStop_onSchema a b.schema h.2.2.2.2.2 ty nm]
-    exact ExRel.map_right _ _ (fun r hr => LSRel.onSchema (lsStop_schema a r ty nm hr) h.2.2.2.2.2)
+    show ExRel _ (lsStop a ty nm) (lsStop (a.onSchema b.schema b.bagSchema) ty nm)
+    rw [lsStop_onSchema a b.schema b.bagSchema h.2.2.2.2.2.2 ty nm]
+    exact ExRel.map_right _ _ (fun r hr => LSRel.onSchema (lsStop_schema a r ty nm hr) (lsStop_bagSchema a r ty nm hr)
+      h.2.2.2.2.2.2 h.2.2.2.2.2.1)
   value := by
     intro a b k v p h
-    have hb : b = a.onSchema b.schema := h.eq
+    have hb : b = a.onSchema b.schema b.bagSchema := h.eq
     rw [hb]
-    show ExRel _ (lsValue a k v p) (lsValue (a.onSchema b.schema) k v p)
-    rw [lsValue_onSchema a b.schema k v p]
-    exact ExRel.map_right _ _ (fun r hr => LSRel.onSchema (lsValue_schema a r k v p hr) h.2.2.2.2.2)
+    show ExRel _ (lsValue a k v p) (lsValue (a.onSchema b.schema b.bagSchema) k v p)
+    rw [lsValue_onSchema a b.schema b.bagSchema k v p]
+    exact ExRel.map_right _ _ (fun r hr => LSRel.onSchema (lsValue_schema a r k v p hr) (lsValue_bagSchema a r k v p hr)
+      h.2.2.2.2.2.2 h.2.2.2.2.2.1)
   imp := fun a b pkg h => lsImport_sle a b pkg h
 
 /-! ### the relation collapses when the fresh side has registered every extra name itself -/
@@ -676,6 +764,24 @@ theorem load_eq_init (conv : Conv) (env : Env) (pkgs : Str → Pkg) (s : Schema)
 def LoadEquiv (n : Nat) : M LoadResult → M LoadResult → Prop :=
   ExRel fun r r' => r'.value = r.value ∧ r'.handlers = r.handlers ∧ TabEq n r.schemaAfter r'.schemaAfter
 
+theorem gtEq_withImplementers (s : Schema) (regs : List (Str × Str)) : GtEq s (s.withImplementers regs) := by
+  intro ty
+  cases h1 : s.gettype ty with
+  | none =>
+    have : (s.withImplementers regs).gettype ty = none := by
+      rw [gettype_none_iff_keys, withImplementers_keys, ← gettype_none_iff_keys]; exact h1
+    rw [this]
+  | some e =>
+    cases e with
+    | concrete t => rw [(gettype_concrete_withImplementers s regs ty t).mpr h1]
+    | abstract_ a subs =>
+      have ha : isAbstract (s.withImplementers regs) ty = true := by
+        rw [isAbstract_withImplementers]; unfold Cfg.isAbstract; rw [h1]
+      unfold Cfg.isAbstract at ha
+      split at ha
+      · rename_i heq; rw [heq]; rfl
+      · cases ha
+
 theorem loadInit_sle (conv : Conv) (pkgs : Str → Pkg) (s : Schema) (regs : List (Str × Str)) (specs : List Str) :
     ExRel (PSR (LSRel (SLe s.types.length fun k c => (c, k) ∈ regs)))
       (loadInit conv pkgs s specs) (loadInit conv pkgs (s.withImplementers regs) specs) := by
@@ -687,11 +793,15 @@ theorem loadInit_sle (conv : Conv) (pkgs : Str → Pkg) (s : Schema) (regs : Lis
     rw [ok_bind, ok_bind]
     cases (if ov.isEmpty = true then pure none else Except.map some (mkBag conv s.top ov) : M (Option Bag)) with
     | error e => rfl
-    | ok bag => exact ExRel.ok ⟨rfl, rfl, rfl, rfl, rfl, rfl, rfl, SLe.start s regs⟩
+    | ok bag =>
+      refine ExRel.ok ⟨rfl, rfl, rfl, rfl, rfl, rfl, rfl, ?_, SLe.start s regs⟩
+      cases bag with
+      | none => exact .inl ⟨rfl, rfl⟩
+      | some b => exact .inr ⟨_, _, rfl, rfl, gtEq_withImplementers s regs⟩
 
 theorem loadFin_tabEq {n : Nat} (conv : Conv) (s s' : Schema) (htop : s'.top = s.top) (hh : s'.handler = s.handler)
     (ps ps' : PS LS) (h : PSR (LSRel (TabEq n)) ps ps') : LoadEquiv n (loadFin conv s ps) (loadFin conv s' ps') := by
-  obtain ⟨_, _, h1, h2, h3, h4, h5, hQ⟩ := h
+  obtain ⟨_, _, h1, h2, h3, h4, h5, _, hQ⟩ := h
   unfold loadFin LoadEquiv
   rw [h3, h2, htop, hh, finishMatcher_tabEq hQ]
   cases ps.ctx.stack with
@@ -732,8 +842,8 @@ theorem load_absorbs (conv : Conv) (env : Env) (pkgs : Str → Pkg) (s : Schema)
   · refine (header_simE 64 env (activeOf url) url pre 0 ps0 ps0' hpre h0).bind' ?_
     intro st1 st1' hr1 _ h1
     refine parse_simE (opsSimE_tabEq _) env 64 _ _ _ _ _ _ ⟨h1.1, h1.2.1, ?_⟩
-    obtain ⟨e1, e2, e3, e4, e5, hQ⟩ := h1.2.2
-    refine ⟨e1, e2, e3, e4, e5, hQ.collapse ?_⟩
+    obtain ⟨e1, e2, e3, e4, e5, eB, hQ⟩ := h1.2.2
+    refine ⟨e1, e2, e3, e4, e5, eB, hQ.collapse ?_⟩
     -- the first `n` entries of the fresh side's private schema are the application's entries after `pre`'s own calls
     obtain ⟨hs0, hp0⟩ := loadInit_ok conv pkgs s specs ps0 hi0
     have htr : Traced ps0.ctx.schema (linesStop 64 env (activeOf url) url pre 0 ps0) :=
